@@ -150,3 +150,60 @@ func isTimeoutErr(err error) bool {
 	}
 	return strings.Contains(err.Error(), "i/o timeout")
 }
+
+// strandedCase — op `lv`: two callers with a deadline wait on one Conn; the broker answers with ONE frame that belongs to
+// neither (an id nobody used) and nothing else.  Both calls must come back (with an error) by their deadline; the case
+// gives them five times the deadline.
+//
+//	lv <case> <deadline ms> \t returned:<n>/2 | hung:<n>/2
+func strandedCase() {
+	cl, sv := net.Pipe()
+	go func() {
+		r := bufio.NewReader(sv)
+		n := 0
+		for {
+			var hdr [4]byte
+			if _, err := io.ReadFull(r, hdr[:]); err != nil {
+				return
+			}
+			body := make([]byte, binary.BigEndian.Uint32(hdr[:]))
+			if _, err := io.ReadFull(r, body); err != nil {
+				return
+			}
+			n++
+			if n == 2 {
+				stray := append(be32(0x7000000), 1, 2, 3, 4, 5, 6, 7, 8)
+				sv.Write(append(be32(uint32(len(stray))), stray...))
+			}
+		}
+	}()
+	conn := kafka.NewConnWith(cl, kafka.ConnConfig{ClientID: "c06-lv", Topic: "t", Partition: 0})
+	const dl = 150 * time.Millisecond
+	conn.SetDeadline(time.Now().Add(dl))
+	done := make(chan error, 2)
+	for i := 0; i < 2; i++ {
+		go func() {
+			_, err := conn.ReadLastOffset()
+			done <- err
+		}()
+	}
+	returned := 0
+	timer := time.After(5 * dl)
+wait:
+	for returned < 2 {
+		select {
+		case <-done:
+			returned++
+		case <-timer:
+			break wait
+		}
+	}
+	conn.Close()
+	sv.Close()
+	res := fmt.Sprintf("returned:%d/2", returned)
+	if returned < 2 {
+		res = fmt.Sprintf("hung:%d/2", 2-returned)
+	}
+	fmt.Fprintf(out, "lv stray-frame-two-waiters %d\t%s\n", dl.Milliseconds(), res)
+	out.Flush()
+}
